@@ -67,6 +67,13 @@ def specs_for(t, rnd):
             s3 = "#%x%x%x" % (v >> 8, (v >> 4) & 15, v & 15)
             out.append(dict(text=s3 if (v + rep_) % 3 else s3[1:] if s3[1:].lower() not in refs._named() else s3, bg=b, large=bool(v & 1), spell="hex3",
                             runs=[(0, bool(v & 2))] if t == "quick" else [(0, False), (1, True)], ref=True, chain=False))
+    # three-digit GREY texts over a ladder of grey backgrounds: the repaired colours run through the grey axis, hitting values
+    # with special digit patterns (both nibbles equal, low nibble zero, ...) that a shorthand heuristic would treat differently
+    for g3 in range(16):
+        for bgv in range(0, 256, 4 if t == "quick" else 1):
+            s3 = "#%x%x%x" % (g3, g3, g3)
+            out.append(dict(text=s3 if bgv % 8 else s3.upper(), bg=(bgv, bgv, bgv), large=bool(bgv & 4), spell="hex3",
+                            runs=[(0, False), (1, True)] if bgv % 8 else [(2, False)], ref=True, chain=False))
     return out
 
 
